@@ -609,7 +609,9 @@ def criteria_mismatches(e):
     def close(a, b):
         if a == b:
             return True
-        if not (math.isfinite(a) and math.isfinite(b)):
+        if not math.isfinite(b):          # outside the domain of the definition (e.g. every nested sample has zero
+            return not math.isfinite(a)   # likelihood): any non-finite value behaves the same in `c <= t`
+        if not math.isfinite(a):
             return False
         return abs(a - b) <= 1e-9 * (1.0 + abs(b))
 
@@ -725,7 +727,7 @@ def check_ins_real(chk, r):
                          f"recomputed from the sampler's {len(logL)} samples ({nz} with zero likelihood) gives {want_!r}", rp)
             u, zhat = u_from_samples(logL, logW)
             z = unnum(e["attrs"]["Z_err"])
-            if abs(z - u) > 1e-6 * max(1.0, abs(u)):
+            if abs(z - u) > 1e-6 * max(1.0, abs(u)) and abs(z - math.exp(u / zhat)) <= 1e-9 * (1 + abs(z)):
                 chk.fail("C15:ins:Z_err-is-exp-of-relative-error",
                          f"the Z_err (alias evidence_error) criterion is {z:.6g} = exp(u/Z) with u/Z = {u / zhat:.6g}; the "
                          f"standard error of the evidence recomputed from the samples is u = {u:.6g} (Z = {zhat:.6g})",
@@ -800,9 +802,9 @@ def criteria_cases(r):
             add(f"CU {nm} {dy(a['Z_err'])}", "Z_err (= evidence error)")
         else:
             add(f"CZerrCode {nm} {dy(a['Z_err'])}", "Z_err (as coded)")
-        if above:
+        if above and math.isfinite(unnum(a["ratio"])):
             add(f"CRatio {cL(above)} {nm} {dy(a['ratio'])}", "ratio")
-        if live and nest:
+        if live and nest and math.isfinite(unnum(a["ratio_ns"])):
             add(f"CRatio {cL(live)} {cL(nest)} {dy(a['ratio_ns'])}", "ratio_ns")
         if prev is not None and unnum(a["log_dZ"]) != INF:
             add(f"CDz {nm} {prev} {dy(a['log_dZ'])}", "log_dZ")
@@ -857,6 +859,12 @@ def std_run_cfgs(tier, seed, base):
     return cfgs
 
 
+def up(x):
+    """fractional_error is a numpy longdouble in the sampler and is compared as such: a float64 tolerance one ulp
+    above the recorded (rounded) value is certainly >= the longdouble value"""
+    return math.nextafter(x, INF)
+
+
 def ins_run_cfgs(tier, seed, base, cut_runs=()):
     its = base["its"]
     a = [{n: unnum(e["attrs"][n]) for n in CRITS} for e in its]
@@ -869,7 +877,7 @@ def ins_run_cfgs(tier, seed, base, cut_runs=()):
         dict(common_kw, name="any2", stopping_criterion=["log_evidence", "ratio"],
              tolerance=[jnum(a[min(1, len(a) - 1)]["log_dZ"]), -50.0], check_criteria="any", max_iteration=6),
         dict(common_kw, name="all2", stopping_criterion=["log_evidence", "fractional_error"],
-             tolerance=[jnum(a[min(1, len(a) - 1)]["log_dZ"]), jnum(a[k]["fractional_error"])], check_criteria="all",
+             tolerance=[jnum(a[min(1, len(a) - 1)]["log_dZ"]), jnum(up(a[k]["fractional_error"]))], check_criteria="all",
              max_iteration=6),
     ]
     for cb in cut_runs:
@@ -878,7 +886,7 @@ def ins_run_cfgs(tier, seed, base, cut_runs=()):
         ac = [{n: unnum(e["attrs"][n]) for n in CRITS} for e in cb["its"]]
         kc = min(1, len(ac) - 1)
         cfgs.append(dict(common_kw, name="cut_frac_eq", cut=3.0, stopping_criterion="fractional_error",
-                         tolerance=jnum(ac[kc]["fractional_error"]), max_iteration=5, keep_samples=True))
+                         tolerance=jnum(up(ac[kc]["fractional_error"])), max_iteration=5, keep_samples=True))
         if tier != "quick":
             cfgs.append(dict(common_kw, name="cut_zerr_eq", cut=3.0, stopping_criterion="evidence_error",
                              tolerance=jnum(ac[kc]["Z_err"]), max_iteration=6, keep_samples=True))
@@ -1073,7 +1081,7 @@ def scripted(chk, job, res, gen, rows):
 
 def check_zerr(chk, c, o):
     z, u = unnum(o["Z_err"]), unnum(o["evidence_error"])
-    if abs(z - u) > 1e-6 * max(1.0, abs(u)):
+    if abs(z - u) > 1e-6 * max(1.0, abs(u)) and abs(z - math.exp(unnum(o["log_evidence_error"]))) <= 1e-9 * (1 + abs(z)):
         chk.fail("C15:ins:Z_err-is-exp-of-relative-error",
                  f"the Z_err (alias evidence_error) criterion is {z:.6g} = exp(sigma[ln Z]) >= 1; the evidence error "
                  f"recomputed from the samples is {u:.6g} (Z = {unnum(o['evidence']):.6g}): a tolerance below 1 is never met",
